@@ -43,7 +43,7 @@ func (r *BatchedTokenRequest) Unmarshal(data []byte) bool {
 	}
 
 	l, offset := quicwire.ConsumeVarint(data)
-	if offset < 0 || l > uint64(len(data)-offset) {
+	if offset < 0 || l == 0 || l > uint64(len(data)-offset) {
 		return false
 	}
 	data = data[:offset+int(l)]
